@@ -339,15 +339,21 @@ from nflows.transforms.standard import PointwiseAffineTransform
 class StageTag(W.Transform):
     """adds the constant `c` (forward) / removes it (inverse); log-det `t`"""
 
-    def __init__(self, c, t):
+    def __init__(self, c, t, k=0.0):
         super().__init__()
-        self.c, self.t = float(c), float(t)
+        self.c, self.t, self.k = float(c), float(t), float(k)
+
+    def _shift(self, inputs, context):
+        # context-conditional when k != 0 (a missing context counts as zero, as conditioners with optional context do)
+        if context is None or self.k == 0.0:
+            return self.c
+        return self.c + self.k * context.reshape([inputs.shape[0]] + [1] * (inputs.dim() - 1))
 
     def forward(self, inputs, context=None):
-        return inputs + self.c, inputs.new_full((inputs.shape[0],), self.t)
+        return inputs + self._shift(inputs, context), inputs.new_full((inputs.shape[0],), self.t)
 
     def inverse(self, inputs, context=None):
-        return inputs - self.c, inputs.new_full((inputs.shape[0],), -self.t)
+        return inputs - self._shift(inputs, context), inputs.new_full((inputs.shape[0],), -self.t)
 
 
 def expected_routing(x, sd, nst):
@@ -427,6 +433,24 @@ def oracle_multiscale(S, sd, nst, B=2):
         y2, _ = ms(xr)
     if not torch.equal(y2, y):
         return 'multiscale forward(inverse(y)) != y', dict(match, symptom='round-trip')
+    # the same with context-conditional stages: every stage, in both directions, receives the context of the call
+    msc = MultiscaleCompositeTransform(nst, split_dim=sd)
+    cur = tuple(S)
+    for k in range(nst):
+        ret = msc.add_transform(StageTag(M * 2 ** k, 2 ** k, k=0.25 * (k + 1)), cur)
+        if ret is not None:
+            cur = tuple(ret)
+    cvals = torch.tensor([[4.0 * (b + 1)] for b in range(B)], dtype=W.DT)
+    with torch.no_grad():
+        yc, ldc = msc(x, cvals)
+        want = [e + sum(0.25 * (j + 1) * cvals.reshape([B] + [1] * (e.dim() - 1)) + M * 2 ** j for j in range(k + 1)) for k, e in enumerate(exp)]
+        if not torch.equal(yc, torch.cat([w_.reshape(B, -1) for w_ in want], 1)):
+            return 'multiscale forward with a context: a stage did not receive the context of the call', dict(match, symptom='context-forward')
+        xc, ldci = msc.inverse(yc, cvals)
+    if not torch.equal(xc, x):
+        return 'multiscale inverse(forward(x, context), context) != x: a stage of the inverse did not receive the context', dict(match, symptom='context-inverse')
+    if not torch.equal(ldci, -ldc):
+        return 'multiscale inverse log-det (with context) is not minus the forward log-det', dict(match, symptom='logdet-inverse')
     return None
 
 
@@ -489,6 +513,20 @@ def oracle_composite(nodes, S, B=2):
             if not (torch.equal(b_, want) and torch.equal(lb, lw)):
                 return 'InverseTransform nested %d deep: .inverse is not the %s of the innermost transform' % (depth, 'forward' if depth % 2 else 'inverse'), \
                     {'wrapper': 'inverse', 'symptom': 'nested-depth', 'depth': depth}, nodes
+        # a composite that contains an INVERTED composite: first part, then the remaining parts undone in reverse order
+        if len(parts) >= 3:
+            mixed = CompositeTransform([parts[0], InverseTransform(CompositeTransform(parts[1:]))])
+            a, la = mixed(x, c)
+            h, tot = parts[0](x, c)
+            for p in reversed(parts[1:]):
+                h, l = p.inverse(h, c)
+                tot = tot + l
+            if not (torch.equal(a, h) and torch.allclose(la, tot, rtol=0, atol=1e-9)):
+                return 'Composite([T1, Inverse(Composite([T2, …, Tn]))]) is not T1 followed by the inverses of Tn, …, T2', \
+                    {'wrapper': 'composite', 'symptom': 'nested-inverse-order'}, nodes
+            b_, lb = mixed.inverse(a, c)
+            if not (torch.equal(b_, x) and torch.allclose(lb, -la, rtol=0, atol=1e-9)):
+                return 'Composite([T1, Inverse(Composite([…]))]).inverse does not undo its forward', {'wrapper': 'composite', 'symptom': 'nested-inverse-roundtrip'}, nodes
         wrapped = CompositeTransform([parts[0], InverseTransform(InverseTransform(CompositeTransform(parts[1:])))])
         a, la = wrapped(x, c)
         if not (torch.equal(a, y) and torch.allclose(la, ld, rtol=0, atol=1e-9)):
